@@ -207,6 +207,13 @@ def check(env, rep, tier):
                         for b_ in backs:
                             checkpoint(b_)
                     I.loop_hooks.append(lhook)
+                    if mode == 0:
+                        def ret_hook0(I_, ctx, outs):
+                            results.setdefault("ret0", []).extend(1 for _ in outs)
+                            for s_, rv_ in outs:
+                                checkpoint(s_)
+                        I.return_hooks[c_ret["id"]] = ret_hook0
+                        I.no_join_bodies.add(c_ret["id"])
                     if mode == 1:
                         def ret_hook(I_, ctx, outs):
                             for s_, rv_ in outs:
@@ -263,6 +270,9 @@ def check(env, rep, tier):
                     if not good:
                         ok = False
                 site = {"file": c_ret["span"]["f"], "line": c_ret["span"]["l"], "fn": c_ret["path"]}
+                rep.ob("C15.3", "sweep-every-round", len(results.get("ret0", ())) >= 1,
+                       "the over-limit sweep does not run in a non-confirmable round: an observer whose count already exceeds a limit that was "
+                       "lowered in the meantime stays listed until the next confirmable round", site)
                 rep.ob("C15.3", "retain<=limit", ok, "observers are not retained exactly when count <= configured limit", site,
                        sample={"rule": "C15.3", "paths": len(results["ret"])})
         # ---------------------------------------------- C15.3b the counter can pass every limit
